@@ -50,6 +50,10 @@ class Spec:
         """black-box property predicate on the implementation's trace: None, or (fingerprint, text)"""
         return None
 
+    def equal(self, case, impl, model):
+        """does the implementation's result agree with the model's? (exact by default)"""
+        return impl == model
+
     def derived(self, label, cases, impl):
         """cases for a second model derived from the harness output: (cases, expected)"""
         return [], []
@@ -122,7 +126,7 @@ def check(spec, tier, seed, replay=None):
                 dist[cell] += 1
                 h = hashlib.md5(c.encode()).digest()[:8]
                 cells.setdefault(cell, set()).add(h)
-            if i == m:
+            if spec.equal(c, i, m):
                 validated += 1
             else:
                 mismatches.append((c, i, m, label))
